@@ -31,7 +31,7 @@ def run(ctx):
     ctx.validate("Prop_C05", sig=sig, distinct=distinct, traces=[ctx.out + "/trace-C05.ndjson"])
     # end-to-end part, client side: the client's UDP session manager (Sys_ClientUDP / Prop_C05e)
     ctx.tlc_mc("Sys_ClientUDP", "MC_ClientUDP_big.cfg" if T else "MC_ClientUDP.cfg", timeout=1200)
-    for m in ("RouteByID", "DeleteOnClose", "FreshIDs"):
+    for m in ("RouteByID", "DeleteOnClose", "FreshIDs", "SendUnderLock"):
         ctx.tlc_mc("Sys_ClientUDP", "MC_ClientUDP_mut%s.cfg" % m, expect_violation=True)
     ctx.go_test("core", "./client/", "TestVerif_C05e$", ["harness/core/client/c05_client_test.go"])
     ctx.validate("Prop_C05e", sig=sig, traces=[ctx.out + "/trace-C05e.ndjson"])
